@@ -24,6 +24,7 @@ import (
 	"github.com/internetarchive/Zeno/internal/pkg/controler/pause"
 	"github.com/internetarchive/Zeno/internal/pkg/finisher"
 	"github.com/internetarchive/Zeno/internal/pkg/postprocessor"
+	"github.com/internetarchive/Zeno/internal/pkg/postprocessor/domainscrawl"
 	"github.com/internetarchive/Zeno/internal/pkg/preprocessor"
 	"github.com/internetarchive/Zeno/internal/pkg/preprocessor/seencheck"
 	"github.com/internetarchive/Zeno/internal/pkg/reactor"
@@ -91,7 +92,7 @@ type Options struct {
 	Proxy               bool   // --proxy set: only the proxied client exists, as in startWARCWriter
 	AsyncWARC           bool   // --async-warc-write: no feedback channel
 	SlowWrites          bool   // every WARC write may (as an environment deviation, cost F) take 5 virtual minutes
-	DomainsCrawl        bool
+	DomainsCrawlPatterns []string // --domains-crawl
 }
 
 // World is the per-execution state.
@@ -110,6 +111,9 @@ type World struct {
 	FinishCh, ProduceCh                  chan *models.Item
 	sinkQuit                             chan struct{}
 	sinkWG                               sync.WaitGroup
+
+	// Dyn answers URLs the static site does not know (endless families).
+	Dyn func(u string, attempt int) (Resp, bool)
 
 	client  *warc.CustomHTTPClient
 	HQ      *FakeHQ
@@ -154,6 +158,7 @@ func New(opt Options, site Site) *World {
 		WARCWriteAsync:    opt.AsyncWARC,
 		ExcludeHosts:      append([]string{"archive.org", "archive-it.org"}, opt.ExcludeHosts...),
 		WARCDiscardStatus: opt.DiscardStatus,
+		DomainsCrawl:      opt.DomainsCrawlPatterns,
 		WARCTempDir:       w.seenDir + "/temp",
 		HTTPReadDeadline:  int(60 * time.Second),
 	}
@@ -161,6 +166,10 @@ func New(opt Options, site Site) *World {
 		cfg.WARCDiscardStatus = []int{429}
 	}
 	config.VerifSet(cfg)
+	domainscrawl.Reset()
+	if len(opt.DomainsCrawlPatterns) > 0 {
+		must(domainscrawl.AddElements(opt.DomainsCrawlPatterns))
+	}
 	stats.Init()
 	return w
 }
@@ -232,8 +241,11 @@ func must(err error) {
 }
 
 // Insert hands a seed to the reactor the way a source does.
-func (w *World) Insert(id, url string) error {
-	u := &models.URL{Raw: url}
+func (w *World) Insert(id, url string) error { return w.InsertHops(id, url, 0) }
+
+// InsertHops is Insert for a seed that arrives with a hop count (an outlink queued earlier).
+func (w *World) InsertHops(id, url string, hops int) error {
+	u := &models.URL{Raw: url, Hops: hops}
 	if err := u.Parse(); err != nil {
 		return err
 	}
@@ -336,6 +348,8 @@ func (t *transport) RoundTrip(req *http.Request) (*http.Response, error) {
 		} else {
 			r = p.Script[len(p.Script)-1]
 		}
+	} else if d, ok := dyn(w, u, n); ok {
+		r = d
 	} else {
 		r = Resp{Status: 404, Body: "not found"}
 	}
@@ -366,6 +380,13 @@ func (t *transport) RoundTrip(req *http.Request) (*http.Response, error) {
 	w.mu.Unlock()
 	resp.Body = &body{r: strings.NewReader(r.Body), w: w, f: f, fb: fb}
 	return resp, nil
+}
+
+func dyn(w *World, u string, n int) (Resp, bool) {
+	if w.Dyn == nil {
+		return Resp{}, false
+	}
+	return w.Dyn(u, n)
 }
 
 // body counts opens/closes; closing it ends the connection, which is when the
